@@ -9,6 +9,7 @@ package grammar
 //@   assigns nothing
 
 //@ func Selector.String(sel) (res)
+//@   ensures[C19] res == str.grammar.Selector.String(sel)
 //@   assigns nothing
 
 // Parse is the pigeon engine applied to the rule table. Its contract is the
@@ -199,3 +200,44 @@ package grammar
 //@   requires p != nil
 //@   may_panic
 //@   assigns grammar.current.globalStore@p
+
+// ---- C19: the dump of a syntax tree ------------------------------------------------
+//@ func UnaryOperator.String(op) (res)
+//@   ensures[C19] res == str.grammar.UnaryOperator.String(op)
+//@   assigns nothing
+//@ func BinaryOperator.String(op) (res)
+//@   ensures[C19] res == str.grammar.BinaryOperator.String(op)
+//@   assigns nothing
+//@ func MatchOperator.String(op) (res)
+//@   ensures[C19] res == str.grammar.MatchOperator.String(op)
+//@   assigns nothing
+//@ func CollectionNameBinding.String(b) (res)
+//@   requires b != nil
+//@   ensures[C19] res == BindStr(b.Mode, b.Default, b.Index, b.Value)
+//@   assigns nothing
+
+// every implementation of Expression.ExpressionDump appends the rendering of its node
+//@ external Expression.ExpressionDump(self, w, indent, level) ()
+//@   requires self != nil && wf(self) && w != nil && level >= 0 && level + astSize(self) < 4611686018427387904
+//@   ensures[C19] heap(ghost.out)[wid(w)] == old(heap(ghost.out)[wid(w)]) ++ Render(self, indent, level)
+//@   assigns ghost.out@wid(w)
+
+//@ func UnaryExpression.ExpressionDump(expr, w, indent, level) ()
+//@   requires wf(box[*UnaryExpression](expr)) && w != nil && level >= 0 && level + astSize(box[*UnaryExpression](expr)) < 4611686018427387904
+//@   ensures[C19] heap(ghost.out)[wid(w)] == old(heap(ghost.out)[wid(w)]) ++ Render(box[*UnaryExpression](expr), indent, level)
+//@   decreases astSize(box[*UnaryExpression](expr))
+//@   assigns ghost.out@wid(w)
+//@ func BinaryExpression.ExpressionDump(expr, w, indent, level) ()
+//@   requires wf(box[*BinaryExpression](expr)) && w != nil && level >= 0 && level + astSize(box[*BinaryExpression](expr)) < 4611686018427387904
+//@   ensures[C19] heap(ghost.out)[wid(w)] == old(heap(ghost.out)[wid(w)]) ++ Render(box[*BinaryExpression](expr), indent, level)
+//@   decreases astSize(box[*BinaryExpression](expr))
+//@   assigns ghost.out@wid(w)
+//@ func MatchExpression.ExpressionDump(expr, w, indent, level) ()
+//@   requires wf(box[*MatchExpression](expr)) && w != nil && level >= 0 && level + astSize(box[*MatchExpression](expr)) < 4611686018427387904
+//@   ensures[C19] heap(ghost.out)[wid(w)] == old(heap(ghost.out)[wid(w)]) ++ Render(box[*MatchExpression](expr), indent, level)
+//@   assigns ghost.out@wid(w)
+//@ func CollectionExpression.ExpressionDump(expr, w, indent, level) ()
+//@   requires wf(box[*CollectionExpression](expr)) && w != nil && level >= 0 && level + astSize(box[*CollectionExpression](expr)) < 4611686018427387904
+//@   ensures[C19] heap(ghost.out)[wid(w)] == old(heap(ghost.out)[wid(w)]) ++ Render(box[*CollectionExpression](expr), indent, level)
+//@   decreases astSize(box[*CollectionExpression](expr))
+//@   assigns ghost.out@wid(w)
